@@ -19,6 +19,7 @@ LEVEL_NOTE = ("Not decided: that the AST equals the written program for all layo
               "numeric values of columns.  E7.l checks the capture point of locations, not every whitespace permutation.")
 LEVEL_TEXT += (" Also: (E7.a) the query text handed to tree-sitter is the untransformed source slice of the stanza's query followed by the internal full-match capture; (E7.n) numerals are the maximal run of ASCII digits at the position; (E7.x) skip_query's escape flag makes exactly the next character of a query string inert; (E7.q) parse_sequence compares the next character with the end marker before every element (empty and trailing-comma forms).")
 LEVEL_TEXT += (" (E7.f) a declaration keyword followed — after optional whitespace — by ':' is a field name of the next stanza's query, not a declaration.")
+LEVEL_TEXT += (' (E7.eof) no top-level item — nor the file loop — has a successful path whose last look at the input is an end-of-input-fatal `peek()?`.')
 
 POS_FIELDS = ("offset", "location", "chars")
 
